@@ -3,7 +3,7 @@
    alphabet, with the history in the state (TLC -dump). *)
 EXTENDS StaticPath
 VARIABLE hist
-GenInit == (\E d \in BOOLEAN : InitWith([dflt |-> d, outside |-> TRUE])) /\ hist = <<>>
+GenInit == InitState /\ hist = <<>>
 GenNext == Next /\ hist' = Append(hist, step')
 GenSpec == GenInit /\ [][GenNext]_<<vars, step, hist>>
 =============================================================================
